@@ -270,10 +270,11 @@ static void do_array(const unsigned char *keys, size_t n, size_t sz, int randlen
     searches(keys, n, sz, sorted);
 }
 
+static int large_sizes = 2;
 static void large_inputs(size_t sz)
 {
     static unsigned char keys[MAXN]; static const size_t ns[] = { 1000, 4097 }; size_t ni, i; int shape, a;
-    for (ni = 0; ni < 2; ni++) for (shape = 0; shape < 6 && nviol < 6; shape++) {
+    for (ni = 0; ni < (size_t)large_sizes; ni++) for (shape = 0; shape < 6 && nviol < 6; shape++) {
         size_t n = ns[ni];
         for (i = 0; i < n; i++) switch (shape) {
             case 0: keys[i] = (unsigned char)(i * 250 / n); break;                 /* sorted */
@@ -351,10 +352,11 @@ int main(int argc, char **argv)
             if (nsamples < 3 && (arrays == 300 || arrays == 5000 || arrays == 20000)) { describe_case("sort", keys, n, sz, 2, 0, 1); snprintf(samples[nsamples++], 300, "%s (what:selector:element size:entry point:checked swap:keys:pivot choices)", last_case); }
         }
     }
-    if (thorough && nviol < 6) large_inputs(sz);
+    large_sizes = thorough ? 2 : 1;          /* quick: the 1000-element adversarial inputs only */
+    if (nviol < 6) large_inputs(sz);
     printf("{\"world\":\"sortx\",\"config\":%d,\"config_desc\":\"%zu-byte elements: every array of length 0..%d over 4 keys (%lu arrays) x 6 selectors x raw/vector entry points, all pivot sequences of QUICK_R up to length %d, find/search for 9 probes, reverse%s\","
            "\"property\":\"C11\",\"thorough\":%d,\"evaluations\":%lu,\"nontrivial_states\":%lu,\"exhaustive\":%s,\"closure\":%s,\"wall_s\":%.3f,\"counters\":{\"arrays\":%lu,\"randomised_pivot_sequences\":%lu,\"pivot_branches_abandoned_at_the_draw_cap\":%lu},\"samples\":[",
-           cfg, sz, L, arrays, randlen, thorough ? ", large adversarial inputs (1000 and 4097 elements)" : "", thorough, cases, nontrivial, nviol ? "false" : "true", nviol ? "false" : "true", now() - t0, arrays, rand_sequences, rnd_abandoned);
+           cfg, sz, L, arrays, randlen, thorough ? ", large adversarial inputs (1000 and 4097 elements)" : ", large adversarial inputs (1000 elements)", thorough, cases, nontrivial, nviol ? "false" : "true", nviol ? "false" : "true", now() - t0, arrays, rand_sequences, rnd_abandoned);
     for (i = 0; i < nsamples; i++) printf("%s\"%s\"", i ? "," : "", samples[i]);
     printf("],\"violations\":[");
     for (i = 0; i < nviol; i++) { const char *s; printf("%s{\"replay\":\"%s\",\"ops\":\"%s\",\"message\":\"", i ? "," : "", viols[i], viols[i]); for (s = violmsg[i]; *s; s++) { if (*s == '"' || *s == '\\') putchar('\\'); if ((unsigned char)*s >= 0x20) putchar(*s); } printf("\"}"); }
